@@ -137,7 +137,14 @@ def impl_hier_compile(case):
                     os.environ[k] = v
     else:
         res = compile_routine(doc, **kw)
-    tree = walk_compiled(res.routine, flags)
+    routine = res.routine
+    if case.get("via_export"):
+        # what the user gets as a DOCUMENT: the compiled hierarchy exported and read back (C10 speaks of the compiled result,
+        # whichever way it is looked at)
+        from bartiq import sympy_backend as _sbx
+        from bartiq._routine import CompiledRoutine as _CRx
+        routine = _CRx.from_qref(res.to_qref(), _sbx)
+    tree = walk_compiled(routine, flags)
     return {"tree": tree, "inexact": flags["inexact"]}
 
 
